@@ -2,6 +2,8 @@
 
 from __future__ import annotations
 
+import os
+
 from .consts import Consts
 from .interp import Interp
 from .loader import AnalysisError, Repo
@@ -10,14 +12,43 @@ from .loader import AnalysisError, Repo
 class Context:
     def __init__(self, repo_root: str, tier: str = "quick"):
         self.repo = Repo(repo_root)
+        self.inliner = None
+        self.renames = []
+        if os.environ.get("VERIF_NO_INLINE") != "1":
+            from .roles import recover
+            from .rowloop import recover_frame_keys
+            self.renames = [("workbook_to_json frame key", a, b) for a, b in recover_frame_keys(self.repo)]
+            self.renames += recover(self.repo)
+            from .inline import normalise
+            self.inliner = normalise(self.repo, os.path.dirname(os.path.dirname(os.path.abspath(__file__))))
         self.consts = Consts(self.repo)
+        self._publish_structural_names()
         self.tier = tier
         self._stats = {
             "modules_parsed": len(self.repo.modules),
             "functions_indexed": sum(len(m.functions) for m in self.repo.modules.values()),
             "classes_indexed": sum(len(m.classes) for m in self.repo.modules.values()),
             "source_digest": self.repo.digest(),
+            "helper_calls_expanded": len(self.inliner.log) if self.inliner else 0,
+            "renamed_locals_recovered": [f"{f}: {a} -> {b}" for f, a, b in self.renames],
         }
+
+    def _publish_structural_names(self):
+        import ast as _ast
+
+        from . import report
+        names = set()
+        for m in self.repo.modules.values():
+            names.update(m.name.split("."))
+            names.update(m.classes)
+            names.update(f.name for f in m.functions.values())
+            names.update(m.assigns)
+            for x in _ast.walk(m.tree):
+                if isinstance(x, _ast.Attribute):
+                    names.add(x.attr)
+                elif isinstance(x, _ast.keyword) and x.arg:
+                    names.add(x.arg)
+        report.STRUCTURAL_NAMES = names
 
     def stats(self) -> dict:
         return dict(self._stats)
